@@ -12,6 +12,7 @@ import z3
 
 from . import common, e3
 from .common import log
+from . import probes
 from .mir import engine as mir_engine, exec as mx, chain, cmpcfg
 from .mir.cmpcfg import FieldAtoms, TRAITS, ATTRS
 
@@ -290,7 +291,7 @@ def check_wcb_kernel(eng, obl, out):
     if len(res) != 1 and not problems:
         unknown.append("%d paths (the level's contribution depends on something)" % len(res))
     if problems:
-        out.violation("wcb|push_bounds", "-", "WhereClauseBuilder::push_bounds %s" % "; ".join(sorted(set(problems))))
+        probes.structural(out, "wcb|push_bounds", "WhereClauseBuilder::push_bounds %s" % "; ".join(sorted(set(problems))), 'C04.wcb')
     elif unknown:
         out.inconclusive.append("fn=WhereClauseBuilder::push_bounds reason=%s" % unknown[0])
     else:
@@ -309,7 +310,7 @@ def check_wcb_kernel(eng, obl, out):
     if ok:
         obl.discharged += 1
     else:
-        out.violation("wcb|push_bounds_for_field", "-", "push_bounds_for_field does not add exactly the field's type when (and only when) it mentions a parameter")
+        probes.structural(out, "wcb|push_bounds_for_field", "push_bounds_for_field does not add exactly the field's type when (and only when) it mentions a parameter", 'C04.wcb')
     ex, res = run("WhereClauseBuilder::new")
     obl.total += 1
     ok = bool(res) and all(r.kind == "return" for r in res)
@@ -318,7 +319,7 @@ def check_wcb_kernel(eng, obl, out):
     if ok:
         obl.discharged += 1
     else:
-        out.violation("wcb|new", "-", "WhereClauseBuilder::new does not start from the type's own where-clause predicates")
+        probes.structural(out, "wcb|new", "WhereClauseBuilder::new does not start from the type's own where-clause predicates", 'C04.wcb')
     ex, res = run("WhereClauseBuilder::build")
     obl.total += 1
     ok = bool(res)
@@ -336,7 +337,7 @@ def check_wcb_kernel(eng, obl, out):
     if ok:
         obl.discharged += 1
     else:
-        out.violation("wcb|build", "-", "WhereClauseBuilder::build drops a collected type or predicate")
+        probes.structural(out, "wcb|build", "WhereClauseBuilder::build drops a collected type or predicate", 'C04.wcb')
 
 
 # ---------------------------------------------------------------------------------------------
@@ -462,8 +463,20 @@ def run(tier, pid=PID, only_field_events=False):
             e3.cross_check_solvers(obl, out)
     except mx.Inconclusive as e:
         out.inconclusive.append("fn=? reason=%s" % e)
+    inst = None
+    if pid == PID:
+        # end to end through rustc: written bound(...) arguments at sampled subsets of the nine places vs the documented resolution on a hand-written twin (vlib/c04_inst.py)
+        from . import c04_inst, e1, kani_runner
+        progs = c04_inst.programs(tier, rnd)
+        stats = e1.run_batches(progs)
+        counts = kani_runner.triage(PID, progs, out)
+        log("[C04] bound-resolution programs: %s" % counts)
+        inst = {"resolution_programs": len(progs), "resolution_results": counts, "resolution_kani_wall_s": round(stats["kani_wall_s"], 1),
+                "resolution_rule": "one program per (trait, struct|enum, set of places carrying bound(...), form of each): the real derive on X, the documented where-clause by hand on a twin; "
+                                   "`X<P, Q>: Trait` == `twin<P, Q>: Trait` for P, Q from {all markers, all but one, std traits only, nothing}; verdict: rustc's trait solver (constants), hosted by Kani",
+                "resolution_sample": progs[1].src[:2000] if len(progs) > 1 else ""}
     return e3.finish(
-        pid, tier, t0, eng, obl, out,
+        pid, tier, t0, eng, obl, out, extra=inst,
         rule="every feasible MIR path of every builder (Clone/Copy/Debug/Default/Deref/operators/five comparison traits; struct and enum) is one case; the "
              "`push_bounds` / `push_bounds_for_field` calls on the path must be exactly the levels the documented resolution visits under the path condition "
              "(one z3 query per path, all level-presence / `..` / entry-presence atoms symbolic); non-trivial = a path with at least one decision on an atom",
